@@ -2,7 +2,7 @@
 from facts import AnalysisBroken
 from model import (norm_cond, path_value, dstr, strip, fact_holds, mentions_field, mentions_call, mentions_var,
                    mentions_enum, const_value, walk, ret_value_class)
-from rules import (deep_resolve, guarded, calls_to, field_writes, who_may_call, full_range, loops_over,
+from rules import (unwrap_conv, deep_resolve, guarded, calls_to, field_writes, who_may_call, full_range, loops_over,
                    every_iteration_passes, basename, origins, is_var, is_enum, lastname,
                    dominated_by, reached_only_via, must_pass, linear)
 import charset
@@ -55,6 +55,21 @@ def run(ctx):
         if e.get('op') == '+=' and is_var('command')(e.get('recv')):
             guarded(ctx, 'C16.W1', ec, e, is_var('incl_rsp_file'), True,
                     'the command is extended (for hashing) only when incl_rsp_file is requested', construct='EvaluateCommand:extended')
+    # ... and nothing else touches the text between the evaluation and the return: the command the shell gets is the
+    # evaluated binding byte for byte (quoting produced by the escaping mode is only valid on exactly that text)
+    from model import _written_names
+    rv = {strip(unwrap_conv(r.get('e')))['n'] for r in rets if isinstance(strip(unwrap_conv(r.get('e'))), dict) and strip(unwrap_conv(r.get('e'))).get('k') == 'var'}
+    for e in ec.events():
+        if e['k'] == 'decl' or e['k'] == 'ret':
+            continue
+        wr = {n for kind, n in _written_names(ec, e) if kind == 'var'} & rv
+        if not wr:
+            continue
+        appends = e['k'] == 'call' and (e.get('op') == '+=' or lastname(e.get('name')) in ('append', 'operator+=', 'push_back')) and \
+            isinstance(strip(e.get('recv')), dict) and strip(e['recv']).get('k') == 'var' and strip(e['recv'])['n'] in rv
+        ok = appends and fact_holds(ec.facts_at(e), is_var('incl_rsp_file'), True)
+        ctx.check('C16.W1', ok, ec.name, 'EvaluateCommand:rewritten', ec.where(e),
+                  'the evaluated command is only appended to (under incl_rsp_file), never rewritten: `%s`' % (e.get('src') or e.get('name') or '')[:60])
     sc = prog.fn('RealCommandRunner::StartCommand')
     for e in sc.calls('SubprocessSet::Add'):
         os_ = origins(sc, e['args'][0])
